@@ -344,8 +344,13 @@ def c20_variants(tier, seed, s):
     os.makedirs(special, exist_ok=True)
     for name in ("%url", "%mimetype"):
         shutil.copy(dump, os.path.join(special, name))
+    # a program whose path contains blanks: the program is the first element as it stands, never split into words
+    spaced = os.path.join(s.dir, "media tools", "open  link")
+    os.makedirs(os.path.dirname(spaced), exist_ok=True)
+    shutil.copy(dump, spaced)
     rnd = random.Random(seed)
     hooks = [
+        [spaced, "--as", "%mimetype", "%url"],
         [dump, "%url"],
         [dump],
         [dump, "%mimetype", "%url", "%supertype", "%subtype"],
@@ -376,7 +381,7 @@ def c20_variants(tier, seed, s):
 
 PROPS["C20"] = simple(
     "ui", "TestVerifC20", "exploration",
-    "one process per hook configuration (14 quick / 62 thorough): placeholders first, last, repeated, absent, embedded in longer arguments ('--url=%url', '%url%url', ' %url', '%URL'), "
+    "one process per hook configuration (15 quick / 63 thorough): placeholders first, last, repeated, absent, embedded in longer arguments ('--url=%url', '%url%url', ' %url', '%URL'), "
     "empty arguments, a 1-element hook, shell-looking arguments, and programs literally named %url / %mimetype found through PATH; worlds whose posts, attachments, bios, profile pictures "
     "and banners carry 30 kinds of hostile links (spaces, quotes, backslashes, leading dashes, $(), backticks, ';', '|&<>', glob characters, text that is itself a placeholder, %0A, 4 KB, "
     "non-http schemes, relative and unparsable references) with valid, missing, malformed and hostile media types; on every highlighted item o / p / b / 1..5+Enter are pressed (40 quick / "
@@ -541,7 +546,7 @@ RULE_ADDENDA = {
     "C16": "Also: the terminal is resized while a slow media hook is running; the size a frame is judged against is the one the harness announced last, not servitor's own field.",
     "C17": "Also: keys with printf-like text (50%, %d items, %w, %!s(MISSING)); GetMarkup is classified against a reference for every content x mediaType combination.",
     "C19": "Also: keys and tables spelled in other letter case (the decoder matches case-insensitively).",
-    "C20": "Also: hook arguments with doubled percent signs (%%url); links in running text must reach the hook as */* whatever was opened before in the same process.",
+    "C20": "Also: a hook program whose path contains blanks; attachments must reach the hook with the media type their own JSON declares (else what their own kind implies), independent of the post around them; hook arguments with doubled percent signs (%%url); links in running text must reach the hook as */* whatever was opened before in the same process.",
 }
 for _k, _t in RULE_ADDENDA.items():
     PROPS[_k]["rule"] += " " + _t
